@@ -26,7 +26,7 @@ SZ_KEY = "C11:schulz_zimm-mass-function-is-the-density-sampled-at-integers"
 def grids(tier):
     g = {
         "gauss": [(100, 20), (5000, 50), (10, 3), (150, 200)],
-        "uniform": [(12, 72), (500, 600), (0, 10)],
+        "uniform": [(12, 72), (500, 600), (0, 10), (12.7, 72.9)],
         "schulz_zimm": [(1500, 1000), (1500, 1400), (5000, 4500), (30, 20), (12, 8)],
         "log_normal": [(50, 1.1), (800, 1.5), (800, 1.1), (20, 2.0)],
         "poisson": [(65,), (3,), (400,)],
@@ -203,7 +203,9 @@ def run(tier):
                     ok = len(nums) == len(par) and all(abs(a - float(b)) <= 1e-12 * max(1, abs(float(b))) for a, b in zip(nums, par))
                 except ValueError:
                     ok = False
-            if not ok:
+            if not ok and fam == "uniform" and any(float(x) != int(float(x)) for x in par):
+                v.violation("C11:uniform-parameters-truncated-to-integers", f"str(get_distribution({t!r})) = {str(d)!r}", {"text": t})
+            elif not ok:
                 v.violation(f"C11:text-form:{fam}", f"str(get_distribution({t!r})) = {str(d)!r} does not reproduce the parameters", {"text": t})
             if len(samples) < 6:
                 samples.append({"distribution": t, "total": total, "mean": mean_own, "documented_mean": ref.mean()})
@@ -220,6 +222,8 @@ def run(tier):
         for c in clauses:
             if fam == "schulz_zimm" and c in ("does-not-sum-to-one", "mean-not-as-documented", "interval-off-by-the-normalisation-error"):
                 key = SZ_KEY
+            elif fam == "uniform" and any(float(x) != int(float(x)) for x in par):
+                key = "C11:uniform-parameters-truncated-to-integers"
             else:
                 key = f"C11:{c}:{fam}:{region(fam, par, ref)}"
             v.violation(key, f"{text(fam, par)}: {what}: {c}", {"distribution": text(fam, par), "record": records[idx]})
